@@ -112,8 +112,15 @@ def gen_history(rng, hid):
         svc = {"ty": TY, "name": rng.choice(["Mine", "mine", "Other One"]), "host": "wdreg.local.",
                "ips": "192.168.1.10" if ifaces is IFACES and rng.random() < 0.5 else "auto",
                "port": 80, "props": [["6b", "76"]]}
-        both(calls=[{"op": "monitor", "ch": "m"}, {"op": "register", "svc": svc}])
-        if rng.random() < 0.4:
+        both(calls=[{"op": "monitor", "ch": "m"}])
+        if rng.random() < 0.5:
+            # the host name is already established by an earlier service, so that only the new
+            # instance name is probed below (no other probe's completion re-arms the timers)
+            first = dict(svc, name="First", port=81)
+            both(calls=[{"op": "register", "svc": first}])
+            run(3600)
+        both(calls=[{"op": "register", "svc": svc}])
+        if rng.random() < 0.5:
             # a competing prober with lexicographically later data: we lose the tiebreak and
             # must come back for the retry one second later (needs a timer)
             run(300)
